@@ -289,17 +289,24 @@ StringDictionaryRPHTFC::StringDictionaryRPHTFC(IteratorDictString *it,
             codeSubstr = (codeSubstr << (TABLEBITSO - ptrSubstr));
             ptrSubstr = TABLEBITSO;
           } else {
-            // The first symbol encoding the internal strings is enough for
-            // padding because it uses, at least, 16 bits
+            // The first symbols encoding the internal strings are used for
+            // padding (each one uses bitsrp bits, which can be less than 16);
+            // zeroes follow the last symbol of the bucket
             uint remaining = TABLEBITSO - ptrSubstr;
-            uint codeword = intStrings[ptrB];
+            size_t ptrN = ptrB;
 
-            if (remaining < bitsrp) {
-              codeSubstr = (codeSubstr << remaining) |
-                           (codeword >> (bitsrp - remaining));
-            } else {
-              codeSubstr = (codeSubstr << bitsrp) | codeword;
-              codeSubstr = codeSubstr << (remaining - bitsrp);
+            while (remaining > 0) {
+              uint codeword = (ptrN < ptrE) ? intStrings[ptrN] : 0;
+              ptrN++;
+
+              if (remaining < bitsrp) {
+                codeSubstr = (codeSubstr << remaining) |
+                             (codeword >> (bitsrp - remaining));
+                remaining = 0;
+              } else {
+                codeSubstr = (codeSubstr << bitsrp) | codeword;
+                remaining -= bitsrp;
+              }
             }
 
             ptrSubstr = TABLEBITSO;
